@@ -355,9 +355,9 @@ impl Deserializable for Instruction {
             // ----- control flow -----------------------------------------------------------------
             // control flow instructions should be parsed as a part of Node::read_from() and we
             // should never get here
-            OpCode::IfElse => unreachable!(),
-            OpCode::Repeat => unreachable!(),
-            OpCode::While => unreachable!(),
+            OpCode::IfElse | OpCode::Repeat | OpCode::While => Err(
+                DeserializationError::InvalidValue("control flow opcode in place of an instruction".to_string()),
+            ),
         }
     }
 }
